@@ -11,6 +11,9 @@ OpsV == {"GoNew", "Sentinel", "Errno", "New", "Newf", "NewfW", "PkgNew", "Unimpl
          "HandleAsAssertionFailure", "NewAssertionErrorWithWrappedErrf", "WrapWithHTTPCode",
          "GoWrap", "PkgWithMessage", "PkgWrap", "OsPathError", "OsLinkError", "OsSyscallError",
          "UWrap", "USafeDet", "Join", "GoJoin", "GoWrap2", "Hop", "HopU"}
+\* restricted instance: barriers with unsafe messages through an unknowing, then a knowing process
+OpsBarrier == {"GoNew", "New", "Newf", "Handled", "HandledWithMessage", "HandledInDomain", "Wrap", "WithHint",
+               "Hop", "HopU"}
 Reg1 == {<<"$1">>, <<"$1", "SEP", "$2">>, <<"$1", "NL", "$2">>, <<"PCT", "$1">>, <<"$1", "QT">>}
 Hostile1 == {<<>>, <<"MO", "$1">>, <<"$1", "MC">>, <<"MC", "$1", "MO">>, <<"NL", "$1">>, <<"$1", "NL">>,
              <<"$1", "NL", "NL", "$2">>, <<"$1", "BAD">>, <<"NUL", "$1">>, <<"RM", "$1">>, <<"SP", "$1", "SP">>,
